@@ -442,11 +442,30 @@ func acceptBlocks(c *ssa.Call) []*ssa.BasicBlock {
 		}
 		for _, in := range b.Instrs {
 			call, ok := in.(*ssa.Call)
-			if !ok || !isMethodNamed(calleeObj(call), "strings", "Builder", "WriteString") {
+			if !ok {
 				continue
 			}
-			if _, f, ok := loadedField(call.Call.Args[1]); ok && f.Name() == "key" {
-				out = append(out, b)
+			if isMethodNamed(calleeObj(call), "strings", "Builder", "WriteString") {
+				if _, f, ok := loadedField(call.Call.Args[1]); ok && f.Name() == "key" {
+					out = append(out, b)
+				}
+				continue
+			}
+			// a helper of the module that is handed the root's key and writes its string parameter to a builder
+			if callee := call.Call.StaticCallee(); callee != nil && len(callee.Blocks) > 0 && callee.Pkg == fn.Pkg {
+				for i, a := range call.Call.Args {
+					if _, f, ok := loadedField(a); ok && f.Name() == "key" && i < len(callee.Params) {
+						writes := false
+						eachInstr(callee, func(in2 ssa.Instruction) {
+							if c2, ok := in2.(*ssa.Call); ok && isMethodNamed(calleeObj(c2), "strings", "Builder", "WriteString") && c2.Call.Args[1] == ssa.Value(callee.Params[i]) {
+								writes = true
+							}
+						})
+						if writes {
+							out = append(out, b)
+						}
+					}
+				}
 			}
 		}
 	}
